@@ -24,6 +24,15 @@ Definition is_map_spelling (k : string) : option string :=
   let n := String.length k in
   if Nat.ltb 3 n && String.eqb (substring (n - 3) 3 k) "Map" then Some (substring 0 (n - 3) k) else None.
 
+(* the vocabularies an encoded document names in its @context *)
+Definition ctx_of (j : json) : list string :=
+  match jget "@context" j with
+  | Some (JStr s) => [s]
+  | Some (JArr l) => flat_map (fun e => match e with JStr s => [s] | JObj m => map fst m | _ => [] end) l
+  | Some (JObj m) => map fst m
+  | _ => []
+  end.
+Definition subset (a b : list string) : bool := forallb (fun x => mem x b) a.
 Definition judge (c : bool * json * option json * option json) : list string :=
   match c with
   | (canonical, doc, real, real2) =>
@@ -33,6 +42,15 @@ Definition judge (c : bool * json * option json * option json) : list string :=
        | None, None => []
        | Some _, None => ["model: the model accepts a document the implementation rejects"]
        | None, Some _ => ["model: the model rejects a document the implementation accepts"]
+       end) ++
+      (match cx_shipped doc, real with
+       | Some want, Some r =>
+           let got := ctx_of r in
+           if has_null_or_nested 12 doc then []       (* a null given for a known property still counts as a use of its vocabulary: outside the statement *)
+           else if subset want got && subset got want then []
+           else if subset got want then ["context: the encoded document's @context lacks a vocabulary it uses"]
+           else ["context: the encoded document's @context names a vocabulary it does not use"]
+       | _, _ => []
        end) ++
       (if canonical then
          match real with
